@@ -59,6 +59,9 @@ def executable_lines(path, lo, hi):
             if isinstance(node, ast.Expr) and isinstance(getattr(node, "value", None), ast.Constant) \
                     and isinstance(node.value.value, str):
                 continue
+            # a bare annotation ("x: int") generates no code
+            if isinstance(node, ast.AnnAssign) and node.value is None:
+                continue
             if lo <= node.lineno <= hi:
                 lines.add(node.lineno)
     return lines
